@@ -92,6 +92,36 @@ template <typename R> static size_t retained(R const& rx)
        + rx.chunk_.data_.size() + rx.chunk_.hex_size_.size() + rx.chunk_.extension_.size() + headers_retained(rx.chunk_.trailers_);
 }
 
+// one read: the bytes of the fragment followed by a trap the receiver must never look at.  The trap is CR LF CR LF
+// (what a reused receive buffer may well hold behind the bytes just read), so a parser that peeks behind the end of
+// its input accepts it and moves its iterator beyond the end - reported as OVERRUN; under AddressSanitizer the trap
+// is poisoned as well, so any read behind the end is reported at once.
+#if defined(__SANITIZE_ADDRESS__)
+#include <sanitizer/asan_interface.h>
+#endif
+struct read_buffer
+{
+  std::vector<char> mem;
+  size_t n;
+  explicit read_buffer(std::string const& f) : mem(f.size() + 16, '\n'), n(f.size())
+  {
+    std::copy(f.begin(), f.end(), mem.begin());
+    for (size_t i = 0; i < 16; i += 2) mem[n + i] = '\r';
+#if defined(__SANITIZE_ADDRESS__)
+    ASAN_POISON_MEMORY_REGION(mem.data() + n, 16);
+#endif
+  }
+  ~read_buffer()
+  {
+#if defined(__SANITIZE_ADDRESS__)
+    ASAN_UNPOISON_MEMORY_REGION(mem.data() + n, 16);
+#endif
+  }
+  std::vector<char>::const_iterator begin() const { return mem.cbegin(); }
+  std::vector<char>::const_iterator end() const { return mem.cbegin() + static_cast<std::ptrdiff_t>(n); }
+  size_t size() const { return n; }
+};
+
 template <typename R>
 static std::string run_req(R& rx, std::vector<std::string> const& frags, bool concat, bool defer_continue)
 {
@@ -99,9 +129,9 @@ static std::string run_req(R& rx, std::vector<std::string> const& frags, bool co
   size_t maxret = 0;
   for (auto const& f : frags)
   {
-    typename std::conditional<true, std::string, void>::type buf(f);
-    auto iter = buf.cbegin();
-    auto end = buf.cend();
+    read_buffer buf(f);
+    auto iter = buf.begin();
+    auto end = buf.end();
     Rx st = Rx::VALID;
     int guard = 0;
     if (!calls.empty()) calls += "|";
@@ -114,6 +144,7 @@ static std::string run_req(R& rx, std::vector<std::string> const& frags, bool co
       if (!firstc) calls += ",";
       firstc = false;
       calls += rxc(st); calls += std::to_string(iter - before);
+      if (iter > end) { calls += "OVERRUN"; break; }
       std::string ev;
       switch (st)
       {
@@ -168,9 +199,9 @@ static std::string run_rsp(R& rx, std::vector<std::string> const& frags)
   std::string calls, events;
   for (auto const& f : frags)
   {
-    std::string buf(f);
-    auto iter = buf.cbegin();
-    auto end = buf.cend();
+    read_buffer buf(f);
+    auto iter = buf.begin();
+    auto end = buf.end();
     Rx st = Rx::VALID;
     int guard = 0;
     if (!calls.empty()) calls += "|";
@@ -183,6 +214,7 @@ static std::string run_rsp(R& rx, std::vector<std::string> const& frags)
       if (!firstc) calls += ",";
       firstc = false;
       calls += rxc(st); calls += std::to_string(iter - before);
+      if (iter > end) { calls += "OVERRUN"; break; }
       std::string ev;
       switch (st)
       {
